@@ -122,8 +122,8 @@ def pushedTargetOkLegacy (props : List (Name × Val)) (k : Name) (v : Val) : Boo
   | some p => p == v
   | none => false
 
-/-! ### ORDER BY on numbers (pinned tree: the index order, which never ties across
-Integer/Float: the integer first) -/
+/-! ### ORDER BY on numbers (the engine: the index order, which never ties across
+Integer/Float: the integer first — known finding `orderby-int-float-secondary-key`) -/
 
 def Atom.ordCmpLegacy (a b : Atom) : Ordering := Atom.canonCmp a b
 
